@@ -26,9 +26,15 @@ pub enum StorageError { ColumnIndexOutOfBounds { index: usize }, RowNotFound, Ot
 // RowNormalizer::new(&schema).normalize_and_validate(row)
 #[verifier::external_body] pub struct RowNormalizer<'a> { s: &'a TableSchema }
 impl<'a> RowNormalizer<'a> {
-    #[verifier::external_body] pub fn new(schema: &'a TableSchema) -> (r: RowNormalizer<'a>) { unimplemented!() }
-    #[verifier::external_body] pub fn normalize_and_validate(&self, row: Row) -> (r: Result<Row, StorageError>) { unimplemented!() }
+    #[verifier::external_body] pub fn new(schema: &'a TableSchema) -> (r: RowNormalizer<'a>) ensures r.sch() == schema { unimplemented!() }
+    #[verifier::external_body] pub fn normalize_and_validate(&self, row: Row) -> (r: Result<Row, StorageError>)
+        ensures r matches Ok(x) ==> stored_form(self.sch(), row) == Some(x), r is Err ==> stored_form(self.sch(), row) is None { unimplemented!() }
+    pub uninterp spec fn sch(&self) -> &'a TableSchema;
 }
+/// the form in which a table with this schema stores the row (CHAR padding, VARCHAR truncation); None: the row is rejected
+pub uninterp spec fn stored_form(schema: &TableSchema, row: Row) -> Option<Row>;
+/// the row remove_row looks for: the stored form of the row it is handed (the row itself when it has none)
+pub open spec fn probe_of(schema: &TableSchema, row: Row) -> Row { match stored_form(schema, row) { Some(x) => x, None => row } }
 // std::collections::HashSet<usize> (changed columns) and the IndexType list: opaque
 #[verifier::external_body] pub struct ColSet { c: u8 }
 #[verifier::external_body] pub struct IndexTypes { c: u8 }
@@ -43,7 +49,8 @@ impl RowPred {
 // `self.rows.iter().position(|row| row == target_row)`
 #[verifier::external_body]
 fn position_of(rows: &Vec<Row>, target: &Row) -> (r: Option<usize>)
-    ensures r matches Some(p) ==> p < rows@.len() && rows@[p as int] == *target
+    ensures r matches Some(p) ==> p < rows@.len() && rows@[p as int] == *target,
+            r is None ==> !rows@.contains(*target)
 { unimplemented!() }
 
 // ---------------- IndexManager: ASSUMED contracts (see TRUSTED) ----------------------------------------------------------
@@ -189,6 +196,10 @@ ITEMS = {
         ensures final(self).wf(),
                 res is Err ==> final(self).rows@ == old(self).rows@,
                 res is Ok ==> final(self).rows@.len() + 1 == old(self).rows@.len(),      // exactly ONE row goes (the savepoint undo of unit K-undo relies on it)
+                // .. and it is a row equal to the STORED FORM of the row handed in (the change log holds rows as they were before normalization)
+                res is Ok ==> exists|p: int| 0 <= p < old(self).rows@.len() && old(self).rows@[p] == probe_of(&old(self).schema, *target_row)
+                                && final(self).rows@ == old(self).rows@.remove(p),
+                res is Err ==> !old(self).rows@.contains(probe_of(&old(self).schema, *target_row)),
 '''),
     'rebuild_indexes': dict(file=_F, path='impl Table::fn rebuild_indexes', rewrites=_TY, contract='''
         ensures final(self).wf(), final(self).rows@ == old(self).rows@,
@@ -200,15 +211,15 @@ OBLIGATIONS = {
     'update_row': ['post:indexes_in_sync__other_rows_untouched__error_changes_nothing', 'safety:index_in_bounds'],
     'update_row_selective': ['post:indexes_in_sync__error_changes_nothing', 'safety:index_in_bounds'],
     'delete_where': ['post:indexes_in_sync_after_positions_shift__row_count', 'safety:every_removed_position_in_bounds', 'proof:loop_invariants'],
-    'remove_row': ['post:indexes_in_sync_after_positions_shift', 'safety:position_in_bounds'],
+    'remove_row': ['post:exactly_one_row_equal_to_the_stored_form_of_the_given_row_goes__indexes_in_sync_after_positions_shift', 'safety:position_in_bounds'],
     'rebuild_indexes': ['post:indexes_in_sync__rows_untouched'],
 }
 CANARIES = ['canary_delete', 'canary_update']
 TRUSTED = [
     'external_body IndexManager (new, rebuild, clear, update_for_insert, update_for_update, update_selective, update_for_delete, get_affected_indexes): ASSUMED contracts over the uninterpreted predicate synced(schema, rows); the HashMap<Vec<SqlValue>, usize> maintenance in table/indexes.rs is verified in unit K-index (exact per-call effects on the pk / unique maps; `mirrors` after rebuild) - the link synced == mirrors between the two units is by reading, not by a shared definition. update_for_update / update_selective are assumed to re-sync only when handed the row that really was at that position',
-    'external_body Row (clone is a copy), TableSchema, AppendModeTracker::reset, TableStatistics, RowNormalizer (normalize_and_validate: any result), ColSet / IndexTypes (HashSet<usize>, Vec<IndexType>): opaque',
+    'external_body Row (clone is a copy), TableSchema, AppendModeTracker::reset, TableStatistics, RowNormalizer (normalize_and_validate: the uninterpreted stored_form of the row, or an error), ColSet / IndexTypes (HashSet<usize>, Vec<IndexType>): opaque',
     'external_body RowPred::call / eq_to: the FnMut(&Row) -> bool parameter of delete_where as a pure function of the row; `|row| row == target` as its equality instance',
-    'external_body position_of: rows.iter().position(|r| r == target) returns a valid position holding an equal row (std, Row::eq)',
+    'external_body position_of: rows.iter().position(|r| r == target) returns a valid position holding an equal row, None iff there is none (std, Row::eq)',
     'R10 rewrites (slice forms): for .. in v.iter().enumerate() / v.iter().rev() / &v -> index loops; rows[i] = x -> rows.set(i, x)',
     'Table::insert (normalisation, append tracker, statistics) is not under contract here: its IndexManager call is update_for_insert(schema, row, rows.len() before push)',
     'the user-defined (CREATE INDEX) B-tree indexes of Database are a different registry (property C15: not applicable)',
